@@ -311,6 +311,10 @@ func (op HeapOp) src() string {
 		return set(fmt.Sprintf("(dissoc! %s %s)", v(op.A), op.Key))
 	case "append!":
 		return set(fmt.Sprintf("(append! %s %s)", v(op.A), el))
+	case "slice-bytes":
+		return set(fmt.Sprintf("(slice 'bytes %s %d %d)", v(op.A), op.I, op.J))
+	case "append!-bytes":
+		return set(fmt.Sprintf("(append! %s %s)", v(op.A), el))
 	case "append-bytes!":
 		return set(fmt.Sprintf("(append-bytes! %s %q)", v(op.A), op.Key))
 	case "append-bytes":
@@ -450,6 +454,18 @@ func (h *heap) valid(op HeapOp) bool {
 		return a.obj.clamped || !h.sharedBacking(a.obj)
 	case "append-bytes!", "append-bytes":
 		return a.k == hRef && a.obj.kind == oBytes
+	case "slice-bytes":
+		return a.k == hRef && a.obj.kind == oBytes && 0 <= op.I && op.I <= op.J && op.J <= len(a.obj.b)
+	case "append!-bytes":
+		if a.k != hRef || a.obj.kind != oBytes || len(op.Elems) == 0 {
+			return false
+		}
+		for _, e := range op.Elems {
+			if strings.HasPrefix(e, "v") {
+				return false
+			}
+		}
+		return true
 	case "sort", "sort-key":
 		return isSeqV(a) && allInts(a.obj)
 	}
@@ -491,6 +507,10 @@ func (h *heap) outSize(op HeapOp) int {
 		return n(a) + n(b)
 	case "append-bytes!", "append-bytes":
 		return n(a) + len(op.Key)
+	case "append!-bytes":
+		return n(a) + len(op.Elems)
+	case "slice-bytes":
+		return op.J - op.I
 	case "bytes":
 		return len(op.Key)
 	}
@@ -674,6 +694,14 @@ func (h *heap) apply(op HeapOp, callbackFailed bool) {
 		o.n += len(vals)
 		o.clamped = false
 		res = a
+	case "slice-bytes":
+		// a byte slice is a value of its own: nothing can write through it
+		res = hval{k: hRef, obj: &hobj{kind: oBytes, b: append([]byte(nil), a.obj.b[op.I:op.J]...)}}
+	case "append!-bytes":
+		for _, e := range op.Elems {
+			a.obj.b = append(a.obj.b, byte(h.elem(e).i))
+		}
+		res = a
 	case "append-bytes!":
 		a.obj.b = append(a.obj.b, []byte(op.Key)...)
 		res = a
@@ -745,7 +773,7 @@ func (heapEngine) Gen(r *Rand, tier string) any {
 	}
 	kinds := []string{"list", "vector", "map", "bytes", "mkseq", "alias", "slice", "slice", "cdr", "rest", "append", "append", "cons", "reverse",
 		"map-inc", "select", "reject", "zip", "insert-index", "insert-sorted", "concat", "assoc", "dissoc", "keys", "nth", "get", "length",
-		"assoc!", "assoc!", "dissoc!", "append!", "append!", "append!", "append-bytes!", "append-bytes", "sort", "sort", "sort", "sort-key"}
+		"assoc!", "assoc!", "dissoc!", "append!", "append!", "append!", "append-bytes!", "append-bytes", "slice-bytes", "append!-bytes", "sort", "sort", "sort", "sort-key"}
 	for len(c.Ops) < n {
 		// repair: a backing left in unknown order is re-sorted next
 		var op HeapOp
@@ -805,6 +833,13 @@ func (heapEngine) Gen(r *Rand, tier string) any {
 						op.I = r.Range(0, a.obj.n)
 						op.J = r.Range(op.I, a.obj.n)
 					}
+				case "slice-bytes":
+					if a.k == hRef && a.obj.kind == oBytes {
+						op.I = r.Range(0, len(a.obj.b))
+						op.J = r.Range(op.I, len(a.obj.b))
+					}
+				case "append!-bytes":
+					op.Elems = intsN(1, 3)
 				case "append", "append!":
 					op.Elems = elemsN(1, 3)
 				case "cons", "insert-index", "assoc", "assoc!":
@@ -1001,7 +1036,7 @@ func (heapEngine) Run(ci any, st *Stats) *Violation {
 }
 
 func isMutating(k string) bool {
-	return strings.HasSuffix(k, "!") || k == "sort" || k == "sort-key"
+	return strings.HasSuffix(k, "!") || k == "sort" || k == "sort-key" || k == "append!-bytes"
 }
 
 func (h *heap) touchesUnknown(v hval) bool {
